@@ -360,16 +360,18 @@ func guardedFields(c *check.Ctx, db *lockDB, p *packages.Package, typeName strin
 				continue
 			}
 			nonAtomic++
+			// a read lock protects a read, never a write
+			eff := lockset.Effective(a.Held, a.Write)
 			if common == nil {
-				common = a.Held.Clone()
+				common = eff.Clone()
 			} else {
 				for k := range common {
-					if !a.Held[k] {
+					if !eff[k] {
 						delete(common, k)
 					}
 				}
 			}
-			if len(a.Held) == 0 && firstBad == nil {
+			if len(eff) == 0 && firstBad == nil {
 				firstBad = a
 			}
 		}
